@@ -320,6 +320,20 @@ Arguments srow V : clear implicits.
 Arguments eff V : clear implicits.
 Arguments observed V : clear implicits.
 
+(* ================================================================ named json rows of a database fit *)
+(* Fit.set_json: drop the row(s) with this name, append a new one; Fit.get_json: first row with the name *)
+Section Jsons.
+  Context {A : Type}.
+  Definition set_json (k : string) (v : A) (l : list (string * A)) : list (string * A) :=
+    filter (fun p => negb (String.eqb (fst p) k)) l ++ [(k, v)].
+  Definition get_json (k : string) (l : list (string * A)) : option A := assoc string_dec k l.
+  (* a fit's rows after a history of saves (commits / expiry / re-querying do not change the rows) *)
+  Definition run_json (h : list (string * A)) : list (string * A) :=
+    fold_left (fun l kv => set_json (fst kv) (snd kv) l) h [].
+  Definition json_count (k : string) (l : list (string * A)) : nat :=
+    List.length (filter (fun p => String.eqb (fst p) k) l).
+End Jsons.
+
 (* ================================================================ correspondence cases (binary64) *)
 From Coq Require Import Floats.PrimFloat.
 From PAFCommon Require Import PyFloat.
@@ -387,6 +401,8 @@ Inductive case :=
 (* a directory scraped into a database: samples.csv loaded, stored through EfficientSamples, loaded again *)
 | CScrape (t : node) (headers : list string) (cells : list (list float))
        (loaded : res (list fsample)) (pl : res (list (list float))) (best : res (list float))
+(* Fit.set_json history (name, token) and, per queried name, what get_json returned and how many rows carry the name *)
+| CJsonHist (h : list (string * nat)) (obs : list (string * option nat * nat))
 (* database rows through EfficientSamples; mini = save_all_samples is False; midx = indices kept by minimise (sorted) *)
 | CDb (t : node) (rows : list (srow float)) (mini : bool) (midx : list nat)
       (loaded : res (list fsample)) (pl : res (list (list float))) (best : res (list float)).
@@ -409,6 +425,11 @@ Definition check_case (c : case) : bool :=
       view_eqb t (csv_roundtrip fid fid PrimFloat.add fx (tuple_paths [] t) (sorted_walk t) S) loaded pl best
   | CLoadCsv t headers cells loaded pl best =>
       view_eqb t (csv_load fid fx (headers, cells)) loaded pl best
+  | CJsonHist h obs =>
+      let l := run_json h in
+      forallb (fun o => match o with (k, got, n) =>
+                 match get_json k l, got with Some a, Some b => Nat.eqb a b | None, None => true | _, _ => false end
+                 && Nat.eqb (json_count k l) n end) obs
   | CJsonLoad t ll lp w kw loaded vec =>
       let s := json_load fid fzero fx dict_drops_zero (ll, lp, w, kw) in
       sample_eqb s loaded && res_eqb flist_eqb (param_list (tuple_paths [] t) (sorted_walk t) s) vec
